@@ -5,11 +5,21 @@ namespace Toplevel
 
 variable {α ε : Type}
 
+/-- `write(false)` occurs in the transcript. -/
+def hasNo : List (Tok α ε) → Bool
+  | [] => false
+  | .no :: _ => true
+  | _ :: ts => hasNo ts
+
 @[simp] theorem readInput_nil (a : α) (st : St) :
     readInput (ε := ε) a st [] = ([.sep], (if st.all then st else if st.nMore > 1 then { st with nMore := st.nMore - 1 } else st), [], true) := by
   unfold readInput
   by_cases h : st.all <;> simp [h]
   by_cases h2 : 1 < st.nMore <;> simp [h2, readKeys]
+
+theorem readInput_all (a : α) (st : St) (ks : List Key) (h : st.all = true) :
+    readInput (ε := ε) a st ks = ([.sep], st, ks, true) := by
+  unfold readInput; simp [h]
 
 theorem answersOf_run_nil (t : Trace α ε) : ∀ st : St, answersOf (run t st []) = t.sols := by
   induction t with
@@ -20,6 +30,79 @@ theorem answersOf_run_nil (t : Trace α ε) : ∀ st : St, answersOf (run t st [
     · by_cases h : st.count = 0 <;> simp [run, first, h, answersOf, Trace.sols, ih]
   | fail => intro st; by_cases h : st.count = 0 <;> simp [run, first, h, answersOf, Trace.sols]
   | exc e => intro st; by_cases h : st.count = 0 <;> simp [run, first, h, answersOf, Trace.sols]
+
+theorem answersOf_run_all (t : Trace α ε) : ∀ (st : St) (ks : List Key), st.all = true →
+    answersOf (run t st ks) = t.sols := by
+  induction t with
+  | sol a cp rest ih =>
+    intro st ks hall
+    cases cp
+    · by_cases h : st.count = 0 <;> simp [run, first, h, answersOf, Trace.sols]
+    · have hr := readInput_all (ε := ε) a { st with count := st.count + 1 } ks hall
+      have hi := ih { st with count := st.count + 1 } ks hall
+      simp only [run]
+      rw [hr]
+      simp only [first]
+      split <;> simp [answersOf, Trace.sols, hi]
+  | fail => intro st ks _; by_cases h : st.count = 0 <;> simp [run, first, h, answersOf, Trace.sols]
+  | exc e => intro st ks _; by_cases h : st.count = 0 <;> simp [run, first, h, answersOf, Trace.sols]
+
+theorem hasNo_run_nil (t : Trace α ε) : ∀ st : St, hasNo (run t st []) = t.endsFail := by
+  induction t with
+  | sol a cp rest ih =>
+    intro st
+    cases cp
+    · by_cases h : st.count = 0 <;> simp [run, first, h, hasNo, Trace.endsFail]
+    · by_cases h : st.count = 0 <;> simp [run, first, h, hasNo, Trace.endsFail, ih]
+  | fail => intro st; by_cases h : st.count = 0 <;> simp [run, first, h, hasNo, Trace.endsFail]
+  | exc e => intro st; by_cases h : st.count = 0 <;> simp [run, first, h, hasNo, Trace.endsFail]
+
+/-- after the first answer no indentation is written. -/
+theorem parse_run_nil_pos (t : Trace α ε) : ∀ st : St, st.count ≠ 0 → parse (run t st []) = some t.canon := by
+  induction t with
+  | sol a cp rest ih =>
+    intro st h
+    cases cp
+    · simp [run, first, h, parse, Trace.canon]
+    · simp [run, first, h, parse, Trace.canon]
+      split
+      · exact ih _ (by simp)
+      · split
+        · exact ih _ (by simp)
+        · exact ih _ (by simp)
+  | fail => intro st h; simp [run, first, h, parse, Trace.canon]
+  | exc e => intro st h; simp [run, first, h, parse, Trace.canon]
+
+theorem parse_transcript_nil (t : Trace α ε) : parse (transcript t []) = some t.canon := by
+  cases t with
+  | sol a cp rest =>
+    cases cp
+    · simp [transcript, run, first, parse, Trace.canon]
+    · simp only [transcript, run, first, readInput_nil]
+      simp [parse, Trace.canon]
+      exact parse_run_nil_pos rest _ (by simp)
+  | fail => simp [transcript, run, first, parse, Trace.canon]
+  | exc e => simp [transcript, run, first, parse, Trace.canon]
+
+theorem lastCp_of_endsFail (t : Trace α ε) : t.endsFail = true → t.sols ≠ [] → t.lastCp = some true := by
+  induction t with
+  | sol a cp rest ih =>
+    cases cp
+    · simp [Trace.endsFail]
+    · intro h _
+      simp only [Trace.endsFail] at h
+      simp only [Trace.lastCp]
+      cases hr : rest.sols with
+      | nil =>
+        cases rest with
+        | sol b cp2 r2 => cases cp2 <;> simp [Trace.sols] at hr
+        | fail => simp [Trace.lastCp]
+        | exc e => simp [Trace.lastCp]
+      | cons b bs =>
+        have := ih h (by simp [hr])
+        simp [this]
+  | fail => intro _ h; simp [Trace.sols] at h
+  | exc e => intro h; simp [Trace.endsFail] at h
 
 end Toplevel
 end Scryer
